@@ -231,4 +231,127 @@ def blexAll (fuel : Nat) : Nat → BReader → List Token → BRun
 def streamTokensBuf (buf : Bytes) (sched : List Step) (data : Bytes) : BRun :=
   blexAll (fuelFor data + 2 * sched.length) (fuelFor data) (BReader.ofBuffer buf sched data) []
 
+/-! ### `read`, `read_bytes`, `skip_container`, `skip_unquoted_value` over the concrete buffer -/
+
+/-- `TokenReader::read` -/
+def bread (fuel : Nat) (c : BReader) : BRes Token :=
+  match bnextOpt fuel c with
+  | .ok c' (some t) => .ok c' t
+  | .ok c' none => .err c' .eof
+  | .err c' e => .err c' e
+  | .panic => .panic
+  | .ub => .ub
+  | .fuel => .fuel
+
+/-- `TokenReader::read_bytes` -/
+def breadBytes : Nat → BReader → Nat → BRes Bytes
+  | 0, _, _ => .fuel
+  | f + 1, c, n =>
+    if c.end_ - c.start < n then
+      match bfillBuf c with
+      | (c', .ok 0) => .err c' .eof
+      | (c', .ok _) => breadBytes f c' n
+      | (c', .full) => .err c' .full
+      | (c', .io) => .err c' .io
+    else
+      match badvance c n with
+      | some c' => .ok c' (c.window.take n)
+      | none => .panic
+
+/-- the inner loops of `skip_container` on the memory from the window start: the 8-byte loads and the byte reads see the
+allocation, bounded by the pointer comparisons only (`len` = `end - start`) -/
+def skipScanP (phys : Bytes) (len : Nat) : Nat → SkipSt → Int → Nat → SkipScan
+  | 0, _, _, _ => .fuel
+  | f + 1, .none, depth, ptr =>
+    let chunk : Option (Option Int) :=
+      if len - ptr > 8 then (read64 phys ptr).map (fun data => chunkStep data depth) else some none
+    match chunk with
+    | none => .ub
+    | some (some d) => skipScanP phys len f .none d (ptr + 8)
+    | some none =>
+      if ptr == len then .refill .none depth ptr
+      else
+        match phys[ptr]? with
+        | none => .ub
+        | some val =>
+          let ptr := ptr + 1
+          if val == 123 then skipScanP phys len f .none (depth + 1) ptr
+          else if val == 125 then
+            if depth - 1 == 0 then .done ptr else skipScanP phys len f .none (depth - 1) ptr
+          else if val == 34 then skipScanP phys len f .quote depth ptr
+          else if val == 35 then skipScanP phys len f .comment depth ptr
+          else skipScanP phys len f .none depth ptr
+  | f + 1, .quote, depth, ptr =>
+    if ptr == len then .refill .quote depth ptr
+    else
+      match phys[ptr]? with
+      | none => .ub
+      | some c =>
+        if c == 92 then
+          if len - ptr ≤ 2 then .refill .quote depth ptr
+          else skipScanP phys len f .quote depth (ptr + 2)
+        else if c != 34 then skipScanP phys len f .quote depth (ptr + 1)
+        else skipScanP phys len f .none depth (ptr + 1)
+  | f + 1, .comment, depth, ptr =>
+    if ptr == len then .refill .comment depth ptr
+    else
+      match phys[ptr]? with
+      | none => .ub
+      | some c =>
+        if c == 10 then skipScanP phys len f .none depth (ptr + 1)
+        else skipScanP phys len f .comment depth (ptr + 1)
+
+/-- the outer loop of `skip_container` -/
+def bskipLoop : Nat → BReader → SkipSt → Int → Nat → BRes Unit
+  | 0, _, _, _, _ => .fuel
+  | f + 1, c, st, depth, ptr =>
+    match skipScanP (c.buf.drop c.start) (c.end_ - c.start) (c.end_ - c.start + 2) st depth ptr with
+    | .done p =>
+      match badvance c p with
+      | some c' => .ok c' ()
+      | none => .panic
+    | .refill st' depth' p =>
+      match badvance c p with
+      | none => .panic
+      | some c0 =>
+        match bfillBuf c0 with
+        | (c1, .ok 0) => .err c1 .eof
+        | (c1, .ok _) => bskipLoop f c1 st' depth' 0
+        | (c1, .full) => .err c1 .full
+        | (c1, .io) => .err c1 .io
+    | .ub => .ub
+    | .fuel => .fuel
+
+/-- `TokenReader::skip_container` -/
+def bskipContainer (fuel : Nat) (c : BReader) : BRes Unit := bskipLoop fuel c .none 1 0
+
+/-- `word == 0x0909090A` on the four bytes at the window start: 4 if they are `\n\t\t\t`, else 0 -/
+def head4 : Bytes → Nat
+  | b0 :: b1 :: b2 :: b3 :: _ => if b0 == 10 && b1 == 9 && b2 == 9 && b3 == 9 then 4 else 0
+  | _ => 0
+
+/-- `TokenReader::skip_unquoted_value`: the 4-byte load `ptr.cast::<u32>().read_unaligned()` reads the allocation, guarded by
+`end - ptr >= 4` -/
+def bskipUnquotedValue : Nat → BReader → BRes Unit
+  | 0, _ => .fuel
+  | f + 1, c =>
+    let w := c.window
+    let ptr : Nat :=
+      if c.end_ - c.start ≥ 4 then head4 (c.buf.drop c.start) else 0
+    match skipUScan (w.drop ptr) ptr with
+    | .open_ p =>
+      match badvance c (p + 1) with
+      | some c' => bskipContainer (f + 1) c'
+      | none => .panic
+    | .stop => .ok c ()
+    | .windowEnd =>
+      match badvance c w.length with
+      | none => .panic
+      | some c0 =>
+        match bfillBuf c0 with
+        | (c1, .ok 0) => .ok c1 ()
+        | (c1, .ok _) => bskipUnquotedValue f c1
+        | (c1, .full) => .err c1 .full
+        | (c1, .io) => .err c1 .io
+
 end Jomini.TextReader
